@@ -4,6 +4,7 @@ package harness
 
 import (
 	"bytes"
+	"context"
 	"fmt"
 	"io"
 	"sort"
@@ -14,6 +15,7 @@ import (
 	"github.com/ipfs/go-unixfsnode"
 	dagpb "github.com/ipld/go-codec-dagpb"
 	"github.com/ipld/go-ipld-prime/datamodel"
+	"github.com/ipld/go-ipld-prime/linking"
 	"github.com/ipld/go-ipld-prime/traversal"
 	"github.com/ipld/go-ipld-prime/traversal/selector"
 	sbuilder "github.com/ipld/go-ipld-prime/traversal/selector/builder"
@@ -380,4 +382,101 @@ func TestC03_R_Basics(t *testing.T) {
 	if err != nil || len(ms) != 1 {
 		t.Fatalf("C03 basics: empty path with matchPath: %v %v", ms, err)
 	}
+}
+
+// ---------------------------------------------------------------- several requests served from one loaded root
+
+const c03OneRootRule = "case = (tree as in the path-selector check; the root block is loaded ONCE and that one node object serves 2..5 requests in a row, each a path-selector traversal with its own request context - cancelled when the request is over - and its own link system over one of two stores holding the same blocks, both refusing loads under a finished context); " +
+	"oracle = each request on its own: exactly one match at the normalised path with the exact entity for an existing path, none for a path naming no entry, no traversal error, and every block load of a request arrives at that request's store; non-trivial = >= 2 requests crossing a sharded directory with a child shard on the hash path; distinct by (requests, kinds, targets, store sequence)"
+
+func TestC03_P_RequestsFromOneLoadedRoot(t *testing.T) {
+	ev := newEvid(t, c03OneRootRule)
+	rapid.Check(t, func(t *rapid.T) {
+		root := genTreeOpt(t, 3, scale(8, 14), treeOpts{Hand: true, Unsorted: true})
+		stores := []*Store{NewStore(), NewStore()}
+		for _, st := range stores {
+			if err := root.build(st); err != nil {
+				t.Fatalf("build tree: %v", err)
+			}
+			st.HonorCtx = true
+		}
+		stores[0].RequireSession = rapid.Bool().Draw(t, "sessionStore")
+		lss := []*linking.LinkSystem{stores[0].LinkSystem(), stores[1].LinkSystem()}
+		pn, err := loadPlain(lss[0], root.Root)
+		if err != nil {
+			t.Fatal(err)
+		}
+		nreq := rapid.IntRange(2, 5).Draw(t, "requests")
+		crossing, label := 0, ""
+		for r := 0; r < nreq; r++ {
+			segs, nodes := genWalk(t, root)
+			target := nodes[len(nodes)-1]
+			which := rapid.SampledFrom(c03Targets).Draw(t, "target")
+			exists := true
+			if rapid.IntRange(0, 4).Draw(t, "bogus") == 0 {
+				segs = append(append([]string{}, segs...), "no-such-entry")
+				exists = false
+			}
+			path, _ := renderPath(t, segs)
+			si := rapid.IntRange(0, 1).Draw(t, "store")
+			ctx, cancel := context.WithCancel(sessionCtx)
+			sel, err := selector.CompileSelector(unixfsnode.UnixFSPathSelectorBuilder(path, c03TargetSpec(which), false))
+			if err != nil {
+				cancel()
+				t.Fatalf("compile: %v", err)
+			}
+			stores[0].ResetLogs()
+			stores[1].ResetLogs()
+			var matches []c03Match
+			var derr error
+			must(t, "path traversal", func() {
+				prog := traversal.Progress{Cfg: &traversal.Config{Ctx: ctx, LinkSystem: *lss[si], LinkTargetNodePrototypeChooser: protoChooser}}
+				err = prog.WalkMatching(pn, sel, func(p traversal.Progress, n datamodel.Node) error {
+					if which == "entity" {
+						if err := unixfsnode.BytesConsumingMatcher(p, n); err != nil {
+							return err
+						}
+					}
+					matches = append(matches, c03Match{p.Path.String(), n})
+					return nil
+				})
+				if err == nil && len(matches) == 1 && exists {
+					derr = c03Describe(matches[0].Node, target)
+				}
+			})
+			cancel() // the request is over
+			if err != nil {
+				t.Fatalf("C03 request %d of %d from one loaded root, path %q target %s: traversal error: %v", r+1, nreq, path, which, err)
+			}
+			want := 0
+			if exists && which != "explore-all" {
+				want = 1
+			}
+			if len(matches) != want {
+				t.Fatalf("C03 request %d of %d from one loaded root, path %q (exists=%v) target %s: %d matches, want %d", r+1, nreq, path, exists, which, len(matches), want)
+			}
+			if want == 1 {
+				if matches[0].Path != normPath(segs) {
+					t.Fatalf("C03 request %d of %d from one loaded root, path %q: matched at %q", r+1, nreq, path, matches[0].Path)
+				}
+				if derr != nil {
+					t.Fatalf("C03 request %d of %d from one loaded root, path %q target %s: matched node is not the named entity: %v", r+1, nreq, path, which, derr)
+				}
+			}
+			if stray := stores[1-si].ReadLog(); len(stray) > 0 {
+				t.Fatalf("C03 request %d of %d from one loaded root, path %q: configured with store %d, but %d block loads (%v) went to the store of an earlier request", r+1, nreq, path, si, len(stray), shortCids(stray))
+			}
+			for i, nd := range nodes {
+				if nd.Dir && nd.Sharded && i < len(segs) {
+					if tr, _ := stores[0].ShardTree(nd.Root); tr != nil && len(tr.HashPath(segs[i])) > 0 {
+						crossing++
+						break
+					}
+				}
+			}
+			label += fmt.Sprintf("%s%d/%d ", which[:1], len(segs), si)
+		}
+		ev.Case(label, crossing >= 2, fmt.Sprintf("requests:%d", nreq), fmt.Sprintf("crossingChildShards:%d", crossing))
+		ev.Sample(map[string]any{"requests": label, "entities": root.count(), "crossing_requests": crossing})
+	})
 }
